@@ -81,6 +81,58 @@ Section StateVector.
              other_proper C08_sv_act_mul C08_sv_act_id C08_sv_act_phase C08_sv_act_embed
              rot_exactK crot_exactK rot_angle_onlyK).
   Qed.
+  (* ---- END-TO-END with a concrete meaning of EVERY event: unitary events act as above; a
+     measurement event carries the outcome the classical half took from the script and acts as
+     the projector onto that outcome (unnormalised post-measurement state: its squared norm is the
+     probability of the script); allocation / initialisation of a fresh qubit / free / returned
+     registers and arrays / EPR bookkeeping do not change the amplitudes.
+     For the transpiler MODEL (tied to the real transpiler by the instruction-list
+     correspondence of the C08 check), every program in its domain, EVERY initial classical state
+     (registers, arrays, measurement-outcome script) and EVERY input state psi:
+     the NV program halts with the same arrays, the same remaining script, registers agreeing off
+     the clobbered scratch registers, and the SAME FINAL QUANTUM STATE up to a global phase omega^p.
+     Remaining hypotheses, none of them about the state space:
+       transpile = Ok p'   (the program is in the transpiler's domain),
+       scratch_fresh_b     (decidable: the borrowed scratch Q registers are not mentioned by the program),
+       trace s0 = []       (start of the run),
+       tracked_run         (decidable per run: whenever a gate executes, its Q registers hold the value
+                            of the last `set` in text order; WITHOUT it the statement is false -
+                            C08_transpile_simulates_refuted, the recorded finding about `load`ed registers),
+       the vanilla run halts within `fuel` steps. ---- *)
+  Definition other_meas (e : event) (psi : SV) : SV :=
+    match e with
+    | EvMeas q o => proj_q R rO q (Z.eqb o 1) psi
+    | _ => psi
+    end.
+
+  Lemma other_meas_proper : forall e a b, sv_eq a b -> sv_eq (other_meas e a) (other_meas e b).
+  Proof.
+    intros e a b H. destruct e; try exact H.
+    exact (proj_q_proper R rO rI radd rmul rsub ropp Rth omega q (Z.eqb outcome 1) a b H).
+  Qed.
+
+  Definition sv_run (debug hw : bool) : list event -> SV -> SV :=
+    run_q SV (apply_ev SV sv_act rot_opK crot_opK other_meas (cfg debug hw)).
+
+  Theorem C08_end_to_end_statevector : forall env debug hw p p' s0 fuel pcf sf psi,
+    transpile (cfg debug hw) p = Ok p' -> scratch_fresh_b (cfg debug hw) p = true -> trace s0 = [] ->
+    tracked_run env (cfg debug hw) p fuel 0 s0 = true ->
+    run env p fuel 0 s0 = (Halted, pcf, sf) ->
+    exists fuel' pcf' sf',
+      run env (erase p') fuel' 0 s0 = (Halted, pcf', sf') /\
+      agree (clobbered (cfg debug hw) p) (regs sf) (regs sf') /\ arrs sf = arrs sf' /\ script sf = script sf' /\
+      sv_eq (sv_run debug hw (trace sf') psi) (sv_run debug hw (trace sf) psi).
+  Proof.
+    intros env debug hw p p' s0 fuel pcf sf psi Ht Hfr.
+    exact (C08_transpile_simulates_quantum_c07 SV sv_eq sv_act rot_opK crot_opK other_meas
+             (qeq_refl R rO rI radd rmul rsub ropp Rth omega)
+             (qeq_sym R rO rI radd rmul rsub ropp Rth omega omega32)
+             (qeq_trans R rO rI radd rmul rsub ropp Rth omega)
+             (act_proper R rO rI radd rmul rsub ropp Rth omega half)
+             other_meas_proper C08_sv_act_mul C08_sv_act_id C08_sv_act_phase C08_sv_act_embed
+             rot_exactK crot_exactK rot_angle_onlyK env debug hw p p' s0 fuel pcf sf psi
+             Ht (scratch_fresh_b_sound _ _ Hfr)).
+  Qed.
 End StateVector.
 
 (* non-vacuity: the state space is not a point and the action is not trivial: |0> on
@@ -95,3 +147,4 @@ Print Assumptions C08_sv_act_mul.
 Print Assumptions C08_sv_act_embed.
 Print Assumptions C08_sv_finite_register.
 Print Assumptions C08_transpile_simulates_statevector.
+Print Assumptions C08_end_to_end_statevector.
